@@ -220,12 +220,19 @@ class Tensor(Funsor, metaclass=TensorMeta):
 
         # Handle diagonal variable substitution, including renaming onto
         # a name that remains an input of self.
-        var_counts = Counter(v for v in subs.values() if isinstance(v, Variable))
-        var_counts.update(
-            Variable(k, d) for k, d in self.inputs.items() if k not in subs
+        var_counts = Counter(
+            v.name for v in subs.values() if isinstance(v, (Variable, Slice))
         )
+        var_counts.update(k for k in self.inputs if k not in subs)
         subs = OrderedDict(
-            (k, self.materialize(v) if var_counts[v] > 1 else v)
+            (
+                k,
+                (
+                    self.materialize(v)
+                    if isinstance(v, (Variable, Slice)) and var_counts[v.name] > 1
+                    else v
+                ),
+            )
             for k, v in subs.items()
         )
 
